@@ -458,6 +458,29 @@ def check_defaults(acc, pendulum):
             got = f"raises {type(e).__name__}"
         if got != want:
             acc.mismatch("from_format", "defaults-from-now", {"kind": "def", "text": text, "fmt": fmt}, got, want)
+    # the public entry point: its 'now' is the current time IN THE REQUESTED ZONE.  The two zones are 26 hours apart, so at
+    # any moment at least one of them is on another calendar day than the machine's zone; the clock is read before and
+    # after the call and the case only judged when no midnight fell in between (the one place the real clock is consulted)
+    import datetime as dt_
+    import zoneinfo
+    for zn in ("Pacific/Kiritimati", "Etc/GMT+12", "UTC"):
+        for tzarg in (zn, pendulum.timezone(zn)):
+            zi = zoneinfo.ZoneInfo(zn)
+            d0 = dt_.datetime.now(zi).date()
+            try:
+                r = pendulum.from_format("12:34:56", "HH:mm:ss", tz=tzarg)
+                got = [r.year, r.month, r.day, r.hour, r.minute, r.second, r.timezone_name]
+            except Exception as e:  # noqa: BLE001
+                got = f"raises {type(e).__name__}"
+            d1 = dt_.datetime.now(zi).date()
+            acc.c["evaluations"] += 1
+            if d0 != d1:
+                acc.c["skipped_midnight_during_call"] += 1
+                continue
+            want = [d0.year, d0.month, d0.day, 12, 34, 56, zn]
+            if got != want:
+                acc.mismatch("from_format", "defaults-from-now-in-zone", {"kind": "def", "text": "12:34:56", "fmt": "HH:mm:ss", "tz": zn},
+                             got, want)
     for text, fmt in (("2020-13-01", "YYYY-MM-DD"), ("2020-02-30", "YYYY-MM-DD"), ("20-02-2020x", "DD-MM-YYYY"), ("abc", "YYYY"),
                       ("2020-01-01", "YYYY/MM/DD"), ("13:00 PM", "hh:mm A"), ("25:00", "HH:mm"), ("Foo 2020", "MMMM YYYY"),
                       ("2020-01-01 Europe/Nowhere", "YYYY-MM-DD z"), ("", "YYYY"), ("2020", "")):
